@@ -224,3 +224,31 @@ func SortDesc(l []int32) ([]int32, int32) {
 	return v, s
 }
 func StrOrder(a, b string) (bool, bool, bool, bool) { return a < b, a <= b, a > b, a >= b }
+func LoopCut(src []byte, n int8) ([]byte, int, int) {
+	var cur []byte
+	cur = append(cur, src...)
+	total, rounds := 0, 0
+	for {
+		rounds++
+		if len(cur) < 2 {
+			break
+		}
+		k := int(cur[0])
+		if k == 0 {
+			return cur, total, -1
+		}
+		if k > len(cur) {
+			break
+		}
+		pkg := make([]byte, k+1)
+		copy(pkg, cur[:k])
+		cur = cur[k:]
+		total += int(pkg[k-1]) + len(pkg)
+		if len(cur) > int(n) {
+			continue
+		}
+		cur = nil
+		break
+	}
+	return cur, total, rounds
+}
